@@ -14,7 +14,7 @@ SPEC = {
          "eval": "fun c => let '(r, ps, i) := c in check_set r ps i", "per_shard": 200},
     ],
     "classes": {1: "file-count-not-enforced"},
-    "n_quick": 500, "n_thorough": 15000,
+    "n_quick": 500, "n_thorough": 2000,
     "level": "proof",
     "what_violation": "upload bound to a different place / map entry without file accepted / size or count limit not enforced / crash",
     "rule": ("generated multipart/form-data bodies through receive_batch_body: single and batch operations with nested "
